@@ -23,7 +23,8 @@ def run(path):
             print("step %d: %s rel=%s conc=%s\n   call=%s\n   recorded obs=%s exc=%s\n   now      obs=%s exc=%s %s" % (
                 k, st["call"]["fn"], st["rel"]["kind"], st["conc"], json.dumps(st["call"]), st["obs"]["out"], st["obs"]["exc"],
                 obs["out"], obs["exc"], msg or ""))
-            events.append({"id": k + 1, "sid": 1, "call": st["call"], "rel": st["rel"], "lenient": st["lenient"], "obs": obs})
+            events.append({"id": k + 1, "sid": 1, "call": st["call"], "rel": st["rel"], "lenient": st["lenient"], "obs": obs,
+                           "judge": st.get("judge", "all")})
         module = "Trace_Qc"
     elif kind == "agg":
         import agg_checks
